@@ -49,6 +49,19 @@ def op_const(o):
 _succ_cache = {}
 
 
+def _covers_all_variants(blk, t):
+    """A switch on an enum discriminant that lists every variant cannot take
+    its `otherwise` edge (match lowering reuses a later arm's block for it)."""
+    l = op_local(t["d"])
+    if l is None:
+        return False
+    for s in blk["s"]:
+        if s.get("d") == str(l) and s.get("k") == "discr" and "map" in s:
+            have = {str(v) for v, _bb in t["vals"]}
+            return set(s["map"].keys()) <= have
+    return False
+
+
 def _known_switch_target(blk, t):
     """A switch on the discriminant of a value built in the same block with a
     known variant (the `if let Some(__ret) = None::<T>` prologue emitted by
@@ -100,7 +113,7 @@ def succs(body):
                     for _v, bb in t["vals"]:
                         if bb not in s:
                             s.append(bb)
-                    if t["otherwise"] not in s:
+                    if t["otherwise"] not in s and not _covers_all_variants(b, t):
                         s.append(t["otherwise"])
             elif k in ("goto", "drop", "assert", "yield", "false_edge"):
                 s.append(t["t"])
